@@ -68,7 +68,7 @@ type descState struct {
 // locals with several stores.
 func Desc(v ssa.Value) string {
 	st := &descState{seen: map[ssa.Value]bool{}}
-	return st.desc(v, 7)
+	return st.desc(v, 10)
 }
 
 func paramIndex(p *ssa.Parameter) int {
@@ -221,6 +221,16 @@ func (st *descState) desc(v ssa.Value, d int) string {
 		switch x.Op {
 		case token.MUL:
 			s := st.desc(x.X, d)
+			if k := upDepth(s); k > 1 {
+				inner := s[3*k : len(s)-k]
+				wrap := func(x string) string { return strings.Repeat("up(", k) + x + strings.Repeat(")", k) }
+				if strings.HasPrefix(inner, "&{") && strings.HasSuffix(inner, "}") {
+					return wrap(inner[2 : len(inner)-1])
+				}
+				if strings.HasPrefix(inner, "&") {
+					return wrap(inner[1:])
+				}
+			}
 			if strings.HasPrefix(s, "&{") && strings.HasSuffix(s, "}") {
 				return s[2 : len(s)-1]
 			}
